@@ -114,7 +114,7 @@ Qed.
 (* it.lastV after reading a non-empty time-ordered chunk sequence: the last chunk's last raw value *)
 Lemma fin_chunks q r :
   q_chain None (q :: r) ->
-  FIN (toks_of (map q_samples (q :: r))) acr0 = Some (last (map q_vl (q :: r)) 0).
+  FIN (toks_of (map q_samples (q :: r))) acr0 = Some (last (map q_vl r) (q_vl q)).
 Proof.
   intros Hc. cbn [q_chain] in Hc. destruct Hc as (Hok & _ & Hc).
   cbn [map]. rewrite toks_of_q. rewrite FIN_step. cbn [acr0 c_total]. cbn [Z.eqb].
@@ -125,6 +125,155 @@ Proof.
   rewrite FIN_step. cbn [c_total c_lastT c_lastV c_totalV].
   replace (n' =? 0) with false by (symmetry; apply Z.eqb_neq; lia).
   replace (q_end q >? q_end q) with false by (symmetry; rewrite Z.gtb_ltb; apply Z.ltb_irrefl).
-  rewrite Z.eqb_refl. rewrite (fin_chain r n' (q_end q) (q_vl q) Tot' true Hn' Hc).
-  rewrite last_cons. apply f_equal. apply last_default. destruct r; cbn; discriminate || idtac.
-Abort.
+  rewrite Z.eqb_refl. apply (fin_chain r n' (q_end q) (q_vl q) Tot' true Hn' Hc).
+Qed.
+
+(* ---- helper facts ---- *)
+
+Lemma expand_xor_id : forall (l : list (Z * Z)) lastT,
+  Forall (fun s => lastT <= fst s) l -> StronglySorted Z.le (map fst l) -> expand_xor lastT l = l.
+Proof.
+  induction l as [|[t v] r IH]; intros lastT Hl Hs; [reflexivity|].
+  apply Forall_cons_iff in Hl as [Ht Hl]. cbn [fst] in Ht. cbn [map] in Hs.
+  apply StronglySorted_inv in Hs as [Hs Hle]. cbn [expand_xor].
+  replace (t >=? lastT) with true by (symmetry; apply Z.geb_le; lia).
+  f_equal. apply IH; [|exact Hs]. rewrite Forall_map in Hle. exact Hle.
+Qed.
+
+Lemma adj_nonneg vs : Forall (fun v => 0 <= v) vs -> 0 <= adj vs.
+Proof.
+  destruct vs as [|v r]; intros H; [cbn; lia|]. apply Forall_cons_iff in H as [Hv H].
+  cbn [adj]. rewrite adj_from_total. pose proof (adj_from_nonneg r v H). lia.
+Qed.
+
+Lemma adj_at_nonneg d t : Forall (fun s : Z * Z => 0 <= snd s) d -> 0 <= adj_at d t.
+Proof.
+  intros H. unfold adj_at. apply adj_nonneg. rewrite Forall_map.
+  rewrite Forall_forall in *. intros s Hs. apply filter_In in Hs as [Hs _]. apply H. exact Hs.
+Qed.
+
+Section Part.
+Variables res1 res2 : Z.
+Hypothesis res1_pos : 0 < res1.
+Hypothesis res2_pos : 0 < res2.
+
+(* what the inner iterator of downsampleFloatAggrBatch emits for a part of first-level batches *)
+Definition emitted_of (Bp : list (list (Z * Z))) : list (Z * Z) := expect None (map (q_of res1) Bp).
+
+Lemma part_read Bp :
+  Bp <> [] -> Forall counter_batch Bp -> seps cw res1 Bp ->
+  exists fin,
+    acr_run (S (length (toks_of (present k_counter (map (float_batch cw res1) Bp)))))
+            (toks_of (present k_counter (map (float_batch cw res1) Bp))) acr0
+    = Some (emitted_of Bp, fin) /\
+    c_lastV fin = snd (last (last Bp []) (0, 0)).
+Proof.
+  intros Hne Hcb Hsep. rewrite (present_counters res1 res1_pos Bp Hcb).
+  pose proof (chain_batches res1 res1_pos Bp None Hcb Hsep I) as Hch.
+  pose proof (read_chunks _ Hch) as R. unfold READ in R.
+  destruct Bp as [|b0 r0]; [congruence|]. cbn [map] in Hch.
+  pose proof (fin_chunks _ _ Hch) as F. unfold FIN in F. cbn [map] in R.
+  destruct (acr_run _ _ acr0) as [[out fin]|]; [|discriminate].
+  injection R as ->. injection F as F. exists fin. split; [reflexivity|]. rewrite F.
+  rewrite map_map. change (snd (last b0 (0, 0))) with ((fun b : list (Z * Z) => q_vl (q_of res1 b)) b0).
+  rewrite last_map. rewrite (last_cons b0 r0 []). reflexivity.
+Qed.
+
+Lemma emitted_counter_batch Bp :
+  Bp <> [] -> Forall counter_batch Bp -> seps cw res1 Bp -> counter_batch (emitted_of Bp).
+Proof.
+  intros Hne Hcb Hsep.
+  pose proof (chain_batches res1 res1_pos Bp None Hcb Hsep I) as Hch.
+  destruct (expect_sorted _ None None Hch) as (ES & _ & _). fold (emitted_of Bp) in ES.
+  pose proof (expect_adj res1 res1_pos Bp [] Hcb Hsep ltac:(intros s s' [])) as A.
+  cbn [app] in A. change (prev_of []) with (@None (Z * Z)) in A. fold (emitted_of Bp) in A.
+  assert (Hv : Forall (fun s : Z * Z => 0 <= snd s) (concat Bp)).
+  { apply Forall_concat. rewrite Forall_forall in Hcb |- *. intros b Hb. destruct (Hcb b Hb) as (_ & _ & H). exact H. }
+  destruct Bp as [|b0 r0]; [congruence|].
+  assert (Ht0 : 0 <= q_t0 (q_of res1 b0)).
+  { apply Forall_cons_iff in Hcb as [([Hb0 [_ Hnn]] & _) _]. unfold q_of. cbn [q_t0].
+    destruct b0 as [|s0 b0']; [congruence|]. apply Forall_cons_iff in Hnn as [H _]. exact H. }
+  assert (Hhd : exists B tl, emitted_of (b0 :: r0) = (q_t0 (q_of res1 b0), B) :: tl).
+  { unfold emitted_of. cbn [map expect app]. eexists. eexists. reflexivity. }
+  destruct Hhd as (B & tl & Ee). rewrite Ee in *.
+  split; [split; [discriminate|split]|split].
+  - apply sorted_lt_le_Z. exact ES.
+  - cbn [map] in ES. apply StronglySorted_inv in ES as [_ H]. constructor; [exact Ht0|].
+    rewrite Forall_map in H. eapply Forall_impl; [|exact H]. intros s Hs; cbv beta in Hs. cbn [fst] in Hs. lia.
+  - exact ES.
+  - eapply Forall_impl; [|exact A]. intros s Hs; cbv beta in Hs. rewrite Hs. apply adj_at_nonneg. exact Hv.
+Qed.
+
+Lemma emitted_hd Bp :
+  Bp <> [] -> Forall counter_batch Bp -> hd (0, 0) (emitted_of Bp) = hd (0, 0) (hd [] Bp).
+Proof.
+  intros Hne Hcb. destruct Bp as [|b0 r0]; [congruence|]. unfold emitted_of. cbn [map expect app hd].
+  apply Forall_cons_iff in Hcb as [([Hb0 _] & _) _]. destruct b0 as [|[t0 v0] b0']; [congruence|]. reflexivity.
+Qed.
+
+Lemma emitted_last Bp :
+  Bp <> [] -> Forall counter_batch Bp -> seps cw res1 Bp -> last_t (emitted_of Bp) = last_t (last Bp []).
+Proof.
+  intros Hne Hcb Hsep. unfold last_t at 1.
+  pose proof (chain_batches res1 res1_pos Bp None Hcb Hsep I) as Hch.
+  destruct (expect_sorted _ None None Hch) as (_ & _ & EL). fold (emitted_of Bp) in EL.
+  assert (Hmne : map (q_of res1) Bp <> []) by (destruct Bp; [congruence|discriminate]).
+  specialize (EL Hmne). change 0 with (fst (0, 0)) in EL at 1. rewrite last_map in EL. rewrite EL.
+  assert (Hlastq : last (map (q_of res1) Bp) (mkQ 0 0 [] 0) = q_of res1 (last Bp [])).
+  { clear - Hne. induction Bp as [|b r IH]; [congruence|]. destruct r as [|b' r']; [reflexivity|].
+    change (last (map (q_of res1) (b :: b' :: r')) (mkQ 0 0 [] 0)) with (last (map (q_of res1) (b' :: r')) (mkQ 0 0 [] 0)).
+    rewrite IH by discriminate. reflexivity. }
+  rewrite Hlastq.
+  assert (Hlb : In (last Bp []) Bp) by (apply last_in; exact Hne).
+  rewrite Forall_forall in Hcb. destruct (q_of_ok res1 res1_pos _ (Hcb _ Hlb)) as (_ & H & _ & _).
+  exact H.
+Qed.
+
+(* the second-level counter chunk of a part, as a cchunk: format data of the re-downsampled
+   emitted samples, but the LAST RAW value of the part's last first-level chunk *)
+Definition q2_of (Bp : list (list (Z * Z))) : cchunk :=
+  let qb := q_of res2 (emitted_of Bp) in
+  mkQ (q_t0 qb) (q_v0 qb) (q_mids qb) (snd (last (last Bp []) (0, 0))).
+
+Lemma part_chunk Bp :
+  Bp <> [] -> Forall counter_batch Bp -> seps cw res1 Bp ->
+  exists k2,
+    float_aggr_batch cw res2 (map (float_batch cw res1) Bp) = Some k2 /\
+    k_counter k2 = Some (q_samples (q2_of Bp)) /\
+    q_ok (q2_of Bp) /\
+    q_t0 (q2_of Bp) = fst (hd (0, 0) (hd [] Bp)) /\ q_v0 (q2_of Bp) = snd (hd (0, 0) (hd [] Bp)) /\
+    q_end (q2_of Bp) = last_t (last Bp []).
+Proof.
+  intros Hne Hcb Hsep.
+  destruct (part_read Bp Hne Hcb Hsep) as (fin & Erun & Efin).
+  pose proof (emitted_counter_batch Bp Hne Hcb Hsep) as Hecb.
+  destruct (q_of_ok res2 res2_pos _ Hecb) as (Hqok & Hqend & Hk & _).
+  pose proof Hecb as ([Hene [Hes Henn]] & _ & _).
+  assert (Eexp : expand_xor 0 (emitted_of Bp) = emitted_of Bp) by (apply expand_xor_id; assumption).
+  unfold float_aggr_batch.
+  destruct (generic_aggregate cw k_count a_sum res2 _) as [[m1 x1] cnt].
+  destruct (generic_aggregate cw k_sum a_sum res2 _) as [[m2 x2] sm].
+  destruct (generic_aggregate cw k_min (fun a => oz (a_min a)) res2 _) as [[m3 x3] mn].
+  destruct (generic_aggregate cw k_max (fun a => oz (a_max a)) res2 _) as [[m4 x4] mx].
+  rewrite Erun, Eexp.
+  (* unfold what q_of_ok says about float_batch on the emitted samples *)
+  unfold float_batch in Hk.
+  destruct (emitted_of Bp) as [|e0 erest] eqn:Ee; [congruence|].
+  destruct (downsample_batch cw res2 (e0 :: erest)) as [out lastT] eqn:Ed.
+  cbn [k_counter hd] in Hk. unfold q_samples in Hk. injection Hk as Hh Htl.
+  eexists. split; [reflexivity|]. cbn [k_counter].
+  assert (Hm : q_mids (q_of res2 (e0 :: erest)) = proj a_counter out)
+    by (unfold q_of; cbn [q_mids]; rewrite Ed; reflexivity).
+  rewrite Ed in Htl. cbn [fst] in Htl. apply app_inv_head in Htl. injection Htl as HlT.
+  assert (Eq2 : q_samples (q2_of Bp) = e0 :: proj a_counter out ++ [(lastT, c_lastV fin)]).
+  { unfold q2_of. rewrite Ee. unfold q_samples, q_end. cbn [q_t0 q_v0 q_mids q_vl].
+    rewrite Efin, Hm, HlT. unfold q_end. rewrite Hm. unfold q_of. cbn [q_t0 q_v0 hd]. destruct e0; reflexivity. }
+  split; [rewrite Eq2; reflexivity|].
+  rewrite <- Ee. split; [|split; [|split]].
+  - unfold q2_of, q_of. cbn [q_t0]. rewrite (emitted_hd Bp Hne Hcb). reflexivity.
+  - unfold q2_of, q_of. cbn [q_v0]. rewrite (emitted_hd Bp Hne Hcb). reflexivity.
+  - rewrite <- Ee in Hqend. rewrite <- (emitted_last Bp Hne Hcb Hsep). rewrite <- Hqend.
+    unfold q2_of, q_end. cbn [q_mids q_t0]. reflexivity.
+Qed.
+
+End Part.
